@@ -180,6 +180,18 @@ func (fr *frame) applyCall(cc *ssa.CallCommon, st *bstate, site ssa.Instruction,
 		}
 	}
 	fr.beforeAsserts(cc, st, site)
+	// sweep kind "nilsession": a method of the module's Session interface is invoked only on a value known to
+	// be non-nil (servers run with sessions disabled hand their handlers a nil Session)
+	if cc.IsInvoke() && f.sweep["nilsession"] && !f.dry && !fr.recovers() && len(args) > 0 && args[0].K == KAny {
+		if n, ok := cc.Value.Type().(*types.Named); ok && n.Obj().Pkg() != nil && inModule(n.Obj().Pkg()) && n.Obj().Name() == "Session" {
+			p := token.NoPos
+			if site != nil {
+				p = site.Pos()
+			}
+			f.oblige(st, fmt.Sprintf("%s#session-used-only-when-present:%s.%s", fnShortName(fr.fn), valueLabel(cc.Value), cc.Method.Name()), "safety", f.sweepTags,
+				not(eq(args[0].Tm, "any_nil")), "a Session may be nil when sessions are disabled: its methods are invoked only where it is known to be non-nil", posStr(f.e.fset, p))
+		}
+	}
 	var rt types.Type
 	if cc.Signature().Results().Len() == 1 {
 		rt = cc.Signature().Results().At(0).Type()
